@@ -156,6 +156,9 @@ def main():
     os.makedirs(scratch, exist_ok=True)
     os.environ['TMPDIR'] = scratch
     tempfile.tempdir = scratch
+    # a private HOME: code under test that expands '~' or $HOME must not reach the real home directory
+    os.makedirs(os.path.join(workdir, 'home'), exist_ok=True)
+    os.environ['HOME'] = os.path.join(workdir, 'home')
     res = {'crash': None}
     try:
         # the package is imported while the process is in the worker's scratch directory (where instance files
